@@ -347,6 +347,9 @@ func c29Lacking(got []c29Msg, id string, paths []string) (lacking []string, path
 }
 
 func c29One(t *testing.T, c *vcore.Ctx, b *world.Backend, snap *world.Snap, ids []string, cc *c29Case) {
+	// the transfer runs in goroutines of the repository's own: a panic there ends the process, the call never finishes
+	c.Journal("C29/process-crashed-during-transfer", cc)
+	defer c.JournalDone()
 	resolve := func(name string) string {
 		switch name {
 		case "w1":
